@@ -77,6 +77,7 @@ type Stats struct {
 	WallS        float64           `json:"wall_s"`
 	Digest       uint64            `json:"digest"`
 	Truncated    bool              `json:"truncated_by_time"`
+	SitesHit     []int             `json:"sites_hit,omitempty"`
 	RaceBuild    bool              `json:"race_build"`
 	DigestPerRun []uint64          `json:"digest_per_run,omitempty"`
 }
@@ -199,6 +200,9 @@ func opKind(r *gen.Rng, expr string) string {
 		k = "oneshot"
 	default:
 		k = "compile_search"
+		if r.Chance(1, 3) {
+			k = "mustcompile_search"
+		}
 	}
 	if k == "search" && !compiles(expr) {
 		k = "oneshot"
@@ -336,7 +340,7 @@ func genC12(master uint64, idx int) *Workload {
 					ops = append(ops, Op{Kind: "search", Expr: 0, Doc: 0})
 				} else {
 					ei := r.Intn(len(w.Exprs))
-					ops = append(ops, Op{Kind: []string{"compile_search", "parse", "oneshot"}[r.Intn(3)], Expr: ei, Doc: 0})
+					ops = append(ops, Op{Kind: []string{"compile_search", "parse", "oneshot", "mustcompile_search"}[r.Intn(4)], Expr: ei, Doc: 0})
 				}
 			}
 			w.Clients = append(w.Clients, ops)
@@ -653,6 +657,7 @@ func schedWorker(prop, tier string, master uint64, from, to int, maxWall time.Du
 	}
 	st.WallS = time.Since(start).Seconds()
 	st.Sites2, st.SitePairs = simrt.CoverageCounts()
+	st.SitesHit = simrt.SitesHit()
 	return st
 }
 
